@@ -14,13 +14,14 @@
   (A) universal theorems (this file):
       MIPS (mips, mipsel): addu subu and or xor nor (incl. capstone's move/negu forms) · sll srl sra (and nop) · sllv srlv srav ·
       addiu andi ori xori · lui · slt sltu slti sltiu · movn movz · mfhi mflo mthi mtlo · mult multu · lb lbu lh lhu lw · sb sh sw ·
+      add addi sub (both paths: `lift_correct_single` without overflow, `lift_overflow_stops` with) ·
       beq bne bgez bgtz blez bltz b j, each with ANY of the above in the delay slot (`lift_correct_pair`).
       PowerPC (every mnemonic the dispatcher lifts except bdnzl and the conditional bclr forms): addi/li addis/lis · add subf addze
       (with Rc) · mr · nop · rlwinm/slwi (with Rc) · srawi (with Rc) · cmpwi cmplwi · lbz lwz lwzu · stw stwu stmw · mflr mtlr mtctr ·
       b bl blr bctr (`ppc_lift_correct`).
   (B) none.
   (C) differential only (`unproved_classes` in the evidence):
-      MIPS: add addi sub (trapping) · div divu (zero divisor: finding) · madd maddu msub msubu mul · clz clo (loop graphs) ·
+      MIPS: div divu (zero divisor: finding) · madd maddu msub msubu mul · clz clo (loop graphs) ·
       lwl lwr swl swr ll sc pref sync · teq syscall break rdhwr · jr jal jalr bal bgezal bltzal (known findings: target /
       condition / link evaluated AFTER the delay slot).   PowerPC: bdnzl (finding: lifted as nop), conditional bclr.
 
@@ -79,6 +80,33 @@ theorem lift_correct_pair (big : Bool) (wb wd : Word) (addr : Nat) (r : BTR) (σ
       simp only [Option.bind] at hl
       simp only [step2, hb, hd] at hx
       exact pair_correct b d (instrOK d) addr r σ hl (fun rs h => hj rs (by rw [hb, h])) ha hσ s' pc' u hx
+
+/-- **the trapping forms add / addi / sub, overflow path, all operand values.**  If the manual's `step` raises Integer Overflow
+    (bit 32 ≠ bit 31 of the 33-bit sum / difference), the lifted block reaches the `IntegerOverflow` intrinsic and stops there
+    with the state untouched (falcon's executor reports `err:intrinsic`).  The no-overflow path is part of
+    `lift_correct_single`.  Together they pin the overflow decision for every pair of operands — e.g. `sub` with
+    rt = 0x80000000, where "rs + (0 − rt)" decides differently. -/
+theorem lift_overflow_stops (big : Bool) (w : Word) (addr : Nat) (r : BTR) (σ : State)
+    (hl : liftBTR big [w] addr = some r) (hσ : StateOK σ)
+    (hx : step w (BitVec.ofNat 32 addr) (absState σ) = .trap .overflow) :
+    runBTR r σ = .stop σ "err:intrinsic" := by
+  simp only [liftBTR] at hl
+  cases hd : decode w with
+  | none => rw [hd] at hl; cases hl
+  | some i =>
+    rw [hd] at hl
+    simp only [Option.bind] at hl
+    simp only [step, hd] at hx
+    unfold liftSingle at hl
+    split at hl
+    · cases hl
+    · rename_i hnb
+      rw [if_neg hnb] at hx
+      obtain ⟨f, hf, hr⟩ := Option.map_eq_some_iff.mp hl
+      subst hr
+      obtain ⟨hent, hrun⟩ := overflow_stops i addr f σ _ hf hσ hx
+      simp only [runBTR]
+      rw [runBTR.go]; simp only [hent, hrun]
 
 /-- the decision of a (non-linking) branch is taken in the pre-state: whatever the slot does, the next pc is the
     target iff the condition held BEFORE the slot -/
@@ -145,6 +173,8 @@ example : (liftBTR true [0x00851021#32] 0x1000).isSome = true := by decide
 example : (liftBTR true [0x10850004#32, 0x24840001#32] 0x1000).isSome = true := by decide
 example : (liftBTR false [0x8c820010#32] 0x1000).isSome = true := by decide      -- lw $v0, 16($a0)
 example : (liftBTR true [0x00850018#32] 0x1000).isSome = true := by decide       -- mult $a0, $a1
+example : (liftBTR true [0x00851022#32] 0x1000).isSome = true := by decide       -- sub $v0, $a0, $a1
+example : (liftBTR false [0x20820001#32] 0x1000).isSome = true := by decide      -- addi $v0, $a0, 1
 example : (liftBTR true [0x0085100b#32] 0x1000).isSome = true := by decide       -- movn $v0, $a0, $a1
 example : (liftBTR true [0x00001010#32] 0x1000).isSome = true := by decide       -- mfhi $v0
 example : (liftBTR true [0x03200008#32, 0x24840001#32] 0x1000).isSome = true := by decide   -- jr $t9 ; addiu $a0,$a0,1
